@@ -75,6 +75,11 @@ CHECKS = {
     text="TLC checks the loop for all 4^4 x 4 (rule-set function, start expression) pairs: it always stops within K+1 passes, a converged result is a fixed point (optimizing again changes nothing) and non-convergence is reported only when the rules really cycle. For TLC-generated programs (general and filter focus, plus every conjunction filter over a merge and head/tail templates over no-op repartitions) the guarded hooks record every simplify pass and accepted rewrite of optimize(); TLC requires each simplify call to be a converging behaviour of the modelled loop (chained passes, last pass unchanged, no expression produced twice) within 25 passes and 40 rewrites per tree node, no RuntimeError/other exception, one plan name over three in-process rebuilds and two fresh interpreters with other PYTHONHASHSEED, and that the optimized and the twice-optimized collection compute what the query computes whenever its unoptimized lowering does.",
     note="Trusted: TLC; the hooks (if the hooked lines vanish, traces_without_hook_events reports it and only the observational clauses decide); bounds are generous constants, measured maxima are in the evidence. Equality of the re-optimized plan NAME is reported, not required (the statement requires an unchanged result).",
     design="5.0 C19"),
+ "C08": dict(
+    technique="TLA+ model of naming (prefix + token, one object per name) model-checked by TLC on the class->prefix map observed on the real code (collision candidates); NamesTrace validated by TLC on names / fingerprints / task keys of a corpus built in several orders, histories, interpreters and hash seeds",
+    text="TLC shows that with the observed prefix map building an expression can return an object of another class exactly for the candidate pairs it enumerates. The corpus (TLC-generated programs of four QueryGen foci, single-parameter variations, equal-looking inputs with other data, repartitions of one frame to several targets, a parquet dataset rewritten in place, API-level rename vs column setter, a from_map callable object) is built forward, reversed, shuffled after 200 unrelated queries, and in fresh interpreters with other PYTHONHASHSEED; TLC requires one name per query node and one (key -> task token) set per optimized graph across all builds, one fingerprint per name and one task per key within a build (fingerprints are computed without dask's tokenize), and that API calls return the class they build.",
+    note="Trusted: TLC; the harness fingerprint (class qualname + canonical operand dump, pandas data by hash_pandas_object). DiskShuffle's per-graph uuid keys are excluded by design (F15). Constructor-level aliases between classes that cannot receive equal operands through the API are reported in the evidence, not judged.",
+    design="5.5 C08"),
 }
 
 def main():
